@@ -238,7 +238,7 @@ Proof.
   - destruct data as [|x data']; cbn [wr_loop] in H; [injection H as <- _; constructor|].
     destruct (wr_loop f _ mts _ _) as [[ts0 t0]|] eqn:W; [|discriminate]. injection H as <- <-.
     constructor; [|eapply IH; exact W].
-    rewrite !app_length. unfold padding. rewrite repeat_length. unfold out_header, bulk_out_header, le32. cbn [length app].
+    cbn [length]. rewrite app_length. unfold padding. rewrite repeat_length.
     set (b := firstn mts (x :: data')). assert (length b <= mts)%nat by apply firstn_le_length.
     assert ((4 - len b mod 4) mod 4 < 4) by (apply N.mod_lt; discriminate). lia.
 Qed.
@@ -250,6 +250,7 @@ Lemma write_raw_advantest id_product data tag :
 Proof.
   intros NE Ht. unfold write_raw_quirk, vendor_quirks. change (4916 =? 4916) with true. cbv iota beta.
   change (N.to_nat 63) with 63%nat.
-  destruct (write_raw_ok data 63 tag) as (ts & t' & W & D & _ & _); try assumption; try lia; [reflexivity|].
+  assert (H63 : N.of_nat 63 < 4294967296) by reflexivity.
+  destruct (write_raw_ok data 63 tag ltac:(lia) H63 NE Ht) as (ts & t' & W & D & _ & _).
   exists ts, t'. split; [exact W|]. split; [exact D|]. exact (wr_loop_sizes 63 _ _ _ _ _ _ W).
 Qed.
